@@ -196,6 +196,12 @@ def explore(check, tier, seed=0):
     ctx = mp.get_context("fork")
     pool = ctx.Pool(NPROC, initializer=_init_worker)
     layers = check.layers(tier)
+    only = [x for x in os.environ.get("VERIF_LAYERS", "").split(",") if x]
+    if only:
+        # a partial run (used to finish the layers a capped thorough run did not reach): it is reported as capped, never as exhaustive
+        layers = [(ln, cs) for ln, cs in layers if any(ln.startswith(x) for x in only)]
+        stats["capped"] = True
+        stats["machinery_notes"] = [f"VERIF_LAYERS={','.join(only)}: only these layers were explored"]
     try:
         for lname, cases in layers:
             lt0 = time.time()
